@@ -3,4 +3,5 @@ import DateutilVerif.Properties.C10
 #print axioms C10.rset_iter_sorted
 #print axioms C10.rset_len
 #print axioms C10.history_inv
+#print axioms C10.history_inv_any
 #print axioms C10.history_inv_dropped
